@@ -2559,9 +2559,10 @@ namespace igris
             if (newsize >= N)
                 newsize = N;
 
-            for (size_t i = m_size; i < newsize; ++i)
+            while (m_size < newsize)
             {
-                new (&_data[i]) T{};
+                new (&_data[m_size]) T{};
+                ++m_size;
             }
 
             for (size_t i = newsize; i < m_size; ++i)
